@@ -195,13 +195,13 @@ def run_impl(module, func, payload, timeout=1800, extra_env=None):
                                timeout=timeout, env=env, cwd=home)
         except subprocess.TimeoutExpired:
             return None, f'TIMEOUT after {timeout}s'
-        if p.returncode != 0:
-            return None, (p.stdout[-1000:] + p.stderr[-4000:])
+        # the result marker decides: interpreter-shutdown noise (e.g. BytesIO buffers exported by
+        # SynthDef.as_bytes) may turn the exit status non-zero after the result was written
         try:
             marker = p.stdout.rindex('\n@@RESULT@@')
             return json.loads(p.stdout[marker + len('\n@@RESULT@@'):]), ''
         except ValueError:
-            return None, 'no result marker\n' + p.stdout[-1000:] + p.stderr[-3000:]
+            return None, f'no result marker (exit {p.returncode})\n' + p.stdout[-1000:] + p.stderr[-3000:]
     finally:
         shutil.rmtree(home, ignore_errors=True)
 
